@@ -55,3 +55,8 @@ Definition char_col (ls cs le ce l c : Z) : Z :=
 (* the same walk on a concrete tree shape, for the role reading of `exclude`: P(arent) [ T [ I(nner) ]; S(ibling) ] *)
 Definition shape (p t i s : npos) : stree :=
   SNode 0 (Some p) None [Some (SNode 1 (Some t) None [Some (SNode 2 (Some i) None [])]); Some (SNode 3 (Some s) None [])].
+
+(* removing ONE pair of grouping parentheses which hug T: `(` at (ls, cs), T from (ls, cs + 1) to (le, e), `)` at (le, e).
+   No call excludes T (the flags are TRANSLATED: ungroup_close / ungroup_open), so every role goes through the same map. *)
+Definition ungroup_pos (ls cs le e : Z) (r : role) (q : npos) : npos :=
+  put_at ungroup_open ls (cs + 1) (-1) r (put_at ungroup_close le (e + 1) (-1) r q).
